@@ -161,6 +161,7 @@ func Explore(cfg Config) (Stats, []Violation) {
 			sc, out := runScenario(&cfg, it.prefix, false)
 			if out.End == "divergence" {
 				st.Divergences++
+				cleanup(sc)
 				continue
 			}
 			owned := it.level >= 2 || cfg.ShardI == 0
@@ -190,6 +191,7 @@ func Explore(cfg Config) (Stats, []Violation) {
 					}
 				}
 			}
+			cleanup(sc)
 			// children: alternatives at every decision after the prefix
 			var kids []workItem
 			for i := len(it.prefix); i < len(out.Decisions); i++ {
@@ -338,4 +340,12 @@ func IsKnown(sig string) bool {
 		}
 	}
 	return knownSigs[sig]
+}
+
+// cleanup releases what an execution left behind (descriptors of unwound threads); scenarios
+// implement it when they own kernel objects.
+func cleanup(sc Scenario) {
+	if c, ok := sc.(interface{ Cleanup() }); ok {
+		c.Cleanup()
+	}
 }
